@@ -20,10 +20,10 @@ const (
 type idxAlphabet int
 
 const (
-	idxAll  idxAlphabet = 0 // every position
-	idx5    idxAlphabet = 5 // {0, 1, mid, last-1, last} (DESIGN 3.4)
-	idx2    idxAlphabet = 2 // {0, last}
-	idx1    idxAlphabet = 1 // {0}
+	idxAll idxAlphabet = 0 // every position
+	idx5   idxAlphabet = 5 // {0, 1, mid, last-1, last} (DESIGN 3.4)
+	idx2   idxAlphabet = 2 // {0, last}
+	idx1   idxAlphabet = 1 // {0}
 )
 
 func (a idxAlphabet) has(i, n int) bool {
@@ -48,7 +48,6 @@ type edit struct {
 	// gen produces the edited bytes on a walker private to the caller (a fresh newWalker over the same bytes)
 	gen func(w *walker) []byte
 }
-
 
 type walker struct {
 	root   *cbor.Node
